@@ -13,6 +13,7 @@ import (
 
 	"github.com/canopy-network/canopy/fsm"
 	"github.com/canopy-network/canopy/lib"
+	"github.com/canopy-network/canopy/lib/crypto"
 	"verif/core"
 	"verif/node"
 	"verif/refs"
@@ -104,13 +105,15 @@ func runCase(t *testing.T, run *core.Run, name string, idx int, rng *rand.Rand) 
 			if r.Intn(3) == 0 {
 				return uint64(1 + r.Intn(20))
 			}
+			if idx%3 != 0 {
+				// in two thirds of the chains the other validators are as large as the anchor, so committees 2 and 3 reach the
+				// subsidy threshold and the block mint is split over several committees (division remainders)
+				return uint64(1_000_000_000 + r.Intn(3_000_000_000))
+			}
 			return uint64(100_000 + r.Intn(3_000_000))
 		},
-		// in two thirds of the chains the anchor does not dwarf the others, so committees 2 and 3 reach the subsidy threshold
-		// and the block mint is split over several committees (division remainders)
-		AnchorStake: []uint64{0, 2_500_000, 900_000}[idx%3],
-		Compound:    func(i int) bool { return i%2 == 0 },
-		Committees:  func(i int, r *rand.Rand) []uint64 { return [][]uint64{{1}, {1, 2}, {1, 3}, {1, 2, 3}}[r.Intn(4)] },
+		Compound:   func(i int) bool { return i%2 == 0 },
+		Committees: func(i int, r *rand.Rand) []uint64 { return [][]uint64{{1}, {1, 2}, {1, 3}, {1, 2, 3}}[r.Intn(4)] },
 		Tweak: func(c *lib.Config) {
 			c.BlocksPerHalvening = halv
 			if idx%4 == 3 {
@@ -229,15 +232,37 @@ func runCase(t *testing.T, run *core.Run, name string, idx int, rng *rand.Rand) 
 			}
 		}
 		// slashes show as stake that disappeared (not every slash path emits an event): bound them by the total stake decrease
+		// a validator whose stake was also RAISED by a transaction of this block (edit-stake sets an absolute amount, so the
+		// account pays the slashed part again) hides its slash in the net change: for those the whole previous stake bounds it
+		raised := map[string]bool{}
+		for _, tx := range rec.Block.Transactions {
+			t2 := new(lib.Transaction)
+			if lib.Unmarshal(tx, t2) != nil {
+				continue
+			}
+			if m, e := lib.FromAny(t2.Msg); e == nil {
+				switch x := m.(type) {
+				case *fsm.MessageEditStake:
+					raised[string(x.Address)] = true
+				case *fsm.MessageStake:
+					if pk, e := crypto.NewPublicKeyFromBytes(x.PublicKey); e == nil {
+						raised[string(pk.Address().Bytes())] = true
+					}
+				}
+			}
+		}
 		stakeDrop := new(big.Int)
 		for a, before := range prev.stakeByAddr {
-			if after := cur.stakeByAddr[a]; after < before {
+			if raised[a] {
+				stakeDrop.Add(stakeDrop, new(big.Int).SetUint64(before))
+			} else if after := cur.stakeByAddr[a]; after < before {
 				stakeDrop.Add(stakeDrop, new(big.Int).SetUint64(before-after))
 			}
 		}
 		limit := new(big.Int).Add(stakeDrop, maxRemainder)
 		if burned.Cmp(limit) > 0 {
 			run.Violation("supply-destroyed-beyond-burns", "^"+name+"$", map[string]any{"case": name, "height": h, "burned": burned.String(), "slash_events": slashed, "stake_decrease": stakeDrop.String(), "max_reward_remainder": maxRemainder.String(), "history_tail": tail(history, 40),
+				"accounts_delta": new(big.Int).Sub(cur.accounts, prev.accounts).String(), "pools_delta": new(big.Int).Sub(cur.pools, prev.pools).String(), "stakes_delta": new(big.Int).Sub(cur.stakes, prev.stakes).String(),
 				"pools_before": fmt.Sprint(prev.poolByID), "pools_after": fmt.Sprint(cur.poolByID), "scheduled_mint": mint, "dao_mints": daoMint, "delta_total": delta.String()})
 			return
 		}
